@@ -114,7 +114,7 @@ PROPS['C01'] = dict(
     rule=EG_RULE + '. C01 reads the differences where the implementation claims MORE than the spec derives (eq=1 vs 0, fewer slots, more symmetries, fewer classes).',
     trusted_base=EG_TRUST,
     assumptions=COMMON_ASSUME + ['panics are not C01 violations (no answer is given); they are C08\'s'],
-    pending_theorems=['cong_eval (soundness of Cong in the arithmetic model, C03)', 'checkDag_sound (C07)'],
+    pending_theorems=[],
 )
 
 PROPS['C02'] = dict(
@@ -246,7 +246,7 @@ PROPS['C03'] = dict(
                              'scoping facts assumed by the validity theorems (Rule.implicit): a slot bound in the left pattern does not occur in a variable matched outside its scope; a slot bound only on the right occurs in no variable',
                              'groups whose terms nest more than 3 summations or exceed 120 nodes are skipped (evaluation cost 7^depth) and counted'],
     assumptions=COMMON_ASSUME + ['lam/app and multi-slot leaves are not part of the C03 fragment (no model for them / substitution form not meaningful)'],
-    pending_theorems=['cong_eval : Cong E t u -> (E valid in the model) -> eval t = eval u (links rule validity to the spec)'],
+    pending_theorems=['instantiation lemma linking Rules.evalP (pattern semantics) to Eval.eval (term semantics): an instance of a valid rule holds as an equation between terms'],
 )
 
 PROPS['C15'] = dict(
